@@ -464,8 +464,19 @@ impl Ctx {
             }
         };
 
+        let worker_panics: Mutex<Vec<String>> = Mutex::new(vec![]);
         let failures: Vec<Option<(S::Value, Fail)>> = if threads == 1 {
-            vec![run_worker(0)]
+            match catch_unwind(AssertUnwindSafe(|| run_worker(0))) {
+                Ok(r) => vec![r],
+                Err(_) => {
+                    worker_panics.lock().unwrap().push(format!(
+                        "worker of {} panicked outside a case (generator/harness bug): {:?}",
+                        cfg.name,
+                        take_last_panic()
+                    ));
+                    vec![None]
+                }
+            }
         } else {
             std::thread::scope(|s| {
                 let hs: Vec<_> = (0..threads)
@@ -477,9 +488,25 @@ impl Ctx {
                             .unwrap()
                     })
                     .collect();
-                hs.into_iter().map(|h| h.join().unwrap_or(None)).collect()
+                hs.into_iter()
+                    .map(|h| match h.join() {
+                        Ok(r) => r,
+                        Err(_) => {
+                            worker_panics.lock().unwrap().push(format!(
+                                "worker of {} panicked outside a case (generator/harness bug): {:?}",
+                                cfg.name,
+                                take_last_panic()
+                            ));
+                            None
+                        }
+                    })
+                    .collect()
             })
         };
+        for m in worker_panics.into_inner().unwrap() {
+            eprintln!("{m}");
+            self.inconclusive.push(m);
+        }
 
         let a = acc.into_inner().unwrap();
         let mut missing = vec![];
